@@ -82,6 +82,11 @@ class C02(Check):
                     k += 1
                     yield dict(seed=seed * 7919 + k, source=source, mode=mode, weights=True, redshifts=bool(k % 2),
                                dtype="f8", degrees=True, n=n, chunk=c, parallel=True, progress=False, group="smaller")
+        for c, n in ((7, 50), (50, 333), (20, 97)):
+            for mode in ("centres", "index"):
+                k += 1
+                yield dict(seed=seed * 7919 + 700 + k, source="parquet", mode=mode, weights=True, redshifts=bool(k % 2), dtype="f8",
+                           degrees=True, n=n, chunk=c, parallel=bool(k % 2), progress=False, group="irregular", border=False)
         # whole-number columns (catalogues with coordinates in integer degrees, integer weights) and half floats
         for src_ in ("fits", "hdf5", "parquet", "dataframe"):
             for dt in ("ic", "f2"):
@@ -119,7 +124,7 @@ class C02(Check):
                 dtype=str(rng.choice(["f8", "f8", "f4", "u2", "u4"])), degrees=bool(rng.random() < 0.7),
                 border=bool(rng.random() < 0.3),
                 n=n, chunk=chunk, parallel=bool(i % 4 == 0), progress=bool(rng.random() < 0.2),
-                group=str(rng.choice(["smaller", "equal", "larger", "one"])),
+                group=str(rng.choice(["smaller", "equal", "larger", "one", "irregular"])),
             )
 
     def setup_worker_unused(self):
@@ -244,14 +249,15 @@ class C02(Check):
                 tmp.mkdir(parents=True)
             src_path = None
             if source in ("hdf5", "fits", "parquet"):
-                rgs = {"smaller": max(1, chunk // 3), "equal": chunk, "larger": chunk * 2 + 1, "one": n}[case["group"]]
+                rgs = {"smaller": max(1, chunk // 3), "equal": chunk, "larger": chunk * 2 + 1, "one": n, "irregular": chunk}[case["group"]]
                 # FITS: every third case keeps the table in extension 2 behind another table of a different length
                 decoy = None
                 if source == "fits" and case_bits(case, "hdu") % 3 == 0:
                     decoy = [max(1, n // 3), n + 7, 2 * n + 1][case_bits(case, "decoy") % 3]
                     reader_kw["hdu"] = 2
                 src_path = sources.write_source(source, tmp / ("input" + sources.EXT[source]), cols,
-                                                row_group_size=min(max(rgs, 1), max(n, 1)), decoy_rows=decoy)
+                                                row_group_size=([2 * chunk + 3, max(1, chunk // 2), 1, chunk] if case["group"] == "irregular" and source == "parquet"
+                                                                else min(max(rgs, 1), max(n, 1))), decoy_rows=decoy)
             box = None
             if source == "random":
                 box = dict(ra_min=10.0, ra_max=20.0, dec_min=-10.0, dec_max=10.0,
